@@ -26,6 +26,8 @@ func main() {
 		cmdSweep(os.Args[2:])
 	case "dump":
 		cmdDump(os.Args[2:])
+	case "cex":
+		cmdCex(os.Args[2:])
 	case "check":
 		cmdCheck(os.Args[2:])
 	case "infer":
@@ -326,5 +328,46 @@ func cmdBounded(args []string) {
 	fmt.Printf("bound=%s cases=%d distinct=%d failures=%d wall=%.1fs err=%s\n", r.Bound, r.Cases, r.Distinct, len(r.Failures), r.WallS, r.Error)
 	for _, f := range r.Failures {
 		fmt.Printf("  failure: %v\n", f)
+	}
+}
+
+// cmdCex: try to build and replay a counterexample for one obligation (debugging aid).
+func cmdCex(args []string) {
+	fs := flag.NewFlagSet("cex", flag.ExitOnError)
+	repo := fs.String("repo", "/repo", "repository")
+	fn := fs.String("fn", "", "function name")
+	only := fs.Int("ob", -1, "obligation index")
+	fs.Parse(args)
+	e, err := loadEngine(*repo)
+	if err != nil {
+		fmt.Fprintln(os.Stderr, err)
+		os.Exit(2)
+	}
+	f := e.funcs[*fn]
+	if f == nil {
+		fmt.Fprintln(os.Stderr, "no such function")
+		os.Exit(2)
+	}
+	var target *VC
+	for _, vc := range generateAll(e) {
+		if vc.fn == f {
+			target = vc
+		}
+	}
+	for _, ob := range target.obls {
+		if ob.Index != *only {
+			continue
+		}
+		for attempt := 0; attempt < 3; attempt++ {
+			c := target.tryCounterexample(ob, attempt)
+			if c == nil {
+				fmt.Println("function cannot be called from a test")
+				return
+			}
+			fmt.Printf("--- attempt %d: confirmed=%v note=%s\n%s\n%s\n", attempt, c.Confirmed, c.Note, c.TestSrc, c.Output)
+			if c.Confirmed {
+				return
+			}
+		}
 	}
 }
